@@ -16,12 +16,12 @@ import (
 func init() {
 	checks["C19"] = func(tier string) {
 		checkConc("C19", tier, []concPkg{
-			{"c19a", "c19_user.go.txt", []string{"c19_main.go.txt", "c19_cfg_a.go.txt"}},
-			{"c19b", "c19b_user.go.txt", []string{"c19_main.go.txt", "c19_cfg_b.go.txt"}},
+			{"c19a", "c19_user.go.txt", []string{"c19_main.go.txt", "c19_cfg_a.go.txt"}, ""},
+			{"c19b", "c19b_user.go.txt", []string{"c19_main.go.txt", "c19_cfg_b.go.txt"}, ""},
 		})
 	}
 	checks["C20"] = func(tier string) {
-		checkConc("C20", tier, []concPkg{{"c20", "c20_user.go.txt", []string{"c20_main.go.txt"}}})
+		checkConc("C20", tier, []concPkg{{"c20", "c20_user.go.txt", []string{"c20_main.go.txt"}, ""}})
 	}
 }
 
@@ -29,6 +29,26 @@ type concPkg struct {
 	name    string
 	user    string
 	harness []string
+	lang    string // "" or an older language version the generated file is compiled under
+}
+
+// withOldLoopVars adds, for every scenario package, the same exploration with
+// the generated file compiled as go1.21 code.
+func withOldLoopVars(pkgs []concPkg) []concPkg {
+	out := append([]concPkg{}, pkgs...)
+	for _, p := range pkgs {
+		q := p
+		q.name, q.lang = p.name+"-go121", "go1.21"
+		out = append(out, q)
+	}
+	return out
+}
+
+func (p concPkg) suffix() string {
+	if p.lang == "" {
+		return ""
+	}
+	return " [" + p.lang + "]"
 }
 
 type mcViolation struct {
@@ -61,6 +81,7 @@ func harnessFile(n string) string {
 
 func checkConc(prop, tier string, pkgs []concPkg) {
 	rep := newReporter(prop, tier)
+	pkgs = withOldLoopVars(pkgs)
 	maxStates, budget := 400000, 900
 	if tier == "thorough" {
 		maxStates, budget = 3000000, 5400
@@ -77,7 +98,7 @@ func checkConc(prop, tier string, pkgs []concPkg) {
 			defer pwg.Done()
 			dir := filepath.Join(scratchDir, "e3a", pk.name)
 			user := harnessFile(pk.user)
-			bin, cnt, inconclusive, err := buildConcScenario(pk.name, user, "")
+			bin, cnt, inconclusive, err := buildConcScenario(pk.name, user, "", pk.lang)
 			_ = bin
 			if inconclusive != "" {
 				fmt.Println("INCONCLUSIVE: the generated code contains a construct the scheduler cannot own:", inconclusive)
@@ -135,6 +156,7 @@ func checkConc(prop, tier string, pkgs []concPkg) {
 						rep.Infra("bad explorer output: " + head(sc.Text(), 200))
 						continue
 					}
+					mr.Name += pk.suffix()
 					mu.Lock()
 					all = append(all, mr)
 					mu.Unlock()
@@ -201,9 +223,9 @@ func checkConc(prop, tier string, pkgs []concPkg) {
 	rep.Cov["exhaustive"] = exhaustive
 	rep.Cov["capped_configurations"] = capped
 	if prop == "C19" {
-		rep.Cov["rule"] = "state = global state of one configuration under the cooperative scheduler (per-goroutine observation-history hash and pending operation, channel contents and closed flags, WaitGroup counters); transition = one channel/WaitGroup/go/select step of the real generated code (derived.gen.go of the working tree, instrumented at check time by an AST rewrite onto the mc shim); stateless DFS by replay with a visited set explores all interleavings, unbounded in preemptions; oracle on every terminal state: no shim panic (send on closed channel, double close), output closed exactly once, delivered multiset == sent, per-input order (total order for Fmap/Dup), no deadlock, no goroutine left behind, f applied once per item; a new violation's schedule is replayed once and must reproduce; configurations: Fmap and Dup with 0..3 items x capacities 0..2; the four channel-of-channels / slice forms and the variadic form of Join with 2..3 inputs x item vectors x capacities 0..1 x live producers or pre-filled closed inputs (x outer capacity 0..1); Pipeline with f and g emitting 0..2 items"
+		rep.Cov["rule"] = "state = global state of one configuration under the cooperative scheduler (per-goroutine observation-history hash and pending operation, channel contents and closed flags, WaitGroup counters); transition = one channel/WaitGroup/go/select step of the real generated code (derived.gen.go of the working tree, instrumented at check time by an AST rewrite onto the mc shim); stateless DFS by replay with a visited set explores all interleavings, unbounded in preemptions; oracle on every terminal state: no shim panic (send on closed channel, double close), output closed exactly once, delivered multiset == sent, per-input order (total order for Fmap/Dup), no deadlock, no goroutine left behind, f applied once per item; a new violation's schedule is replayed once and must reproduce; every configuration is explored twice: with the generated file compiled under the scenario module's language version (go 1.24) and as go1.21 code (loop variables shared between iterations, as in a user module that still declares go 1.21); configurations: Fmap and Dup with 0..3 items x capacities 0..2; the four channel-of-channels / slice forms and the variadic form of Join with 2..3 inputs x item vectors x capacities 0..1 x live producers or pre-filled closed inputs (x outer capacity 0..1); Pipeline with f and g emitting 0..2 items"
 	} else {
-		rep.Cov["rule"] = "state/transition as for C19; configurations: deriveDo with n = 2..4 functions x failing subsets x dependency patterns (independent; f_i hands a value to f_j over an unbuffered channel for every ordered pair; chain; reverse chain), a scheduling point at entry and exit of every function; oracle on every terminal state: Do returned (no deadlock), only after every function returned, value i is f_i's, error nil iff no function failed and otherwise one of the injected errors, nothing left blocked"
+		rep.Cov["rule"] = "state/transition as for C19 (also both language versions); configurations: deriveDo with n = 2..4 functions x failing subsets x dependency patterns (independent; f_i hands a value to f_j over an unbuffered channel for every ordered pair; chain; reverse chain), a scheduling point at entry and exit of every function; oracle on every terminal state: Do returned (no deadlock), only after every function returned, value i is f_i's, error nil iff no function failed and otherwise one of the injected errors, nothing left blocked"
 	}
 	rep.Cov["bound"] = fmt.Sprintf("%d configurations; state cap %d per configuration", len(all), maxStates)
 	rep.Assume = append(rep.Assume, "data-race freedom is outside this technique: a cooperative scheduler serialises goroutines; the mc shim's channel semantics (Go spec) are trusted", "no two goroutines of the generated code communicate through unsynchronised shared variables other than via the channel/WaitGroup operations observed (validates state merging)")
@@ -226,6 +248,10 @@ func racePass(rep *Reporter, pk concPkg, user, tier string) int {
 	defer removeAll(dir)
 	if g := run(dir, 3*time.Minute, nil, buildGoderive(), "./p"); g.Exit != 0 {
 		return 0
+	}
+	if pk.lang != "" {
+		gp := filepath.Join(dir, "p", "derived.gen.go")
+		writeFile(gp, langConstraint(pk.lang)+readFileOr(gp, ""))
 	}
 	for i, h := range pk.harness {
 		writeFile(filepath.Join(dir, fmt.Sprintf("h%d.go", i)), harnessFile(h))
@@ -273,8 +299,8 @@ func racePass(rep *Reporter, pk concPkg, user, tier string) int {
 				if i := strings.IndexByte(clause, ':'); i > 0 {
 					clause = clause[:i]
 				}
-				rep.Violation("free-run|"+cls+"|"+normNumRe.ReplaceAllString(clause, "N"), fmt.Sprintf("free run (native runtime) of configuration %s: %s", m.Name, strings.Join(m.Problems, "; ")),
-					map[string]interface{}{"engine": "e3a-race", "configuration": m.Name})
+				rep.Violation("free-run|"+cls+"|"+normNumRe.ReplaceAllString(clause, "N"), fmt.Sprintf("free run (native runtime) of configuration %s%s: %s", m.Name, pk.suffix(), strings.Join(m.Problems, "; ")),
+					map[string]interface{}{"engine": "e3a-race", "configuration": m.Name + pk.suffix()})
 			}
 		}
 	})
@@ -291,17 +317,22 @@ func replayE3a(prop string, rec map[string]interface{}) {
 			sched = append(sched, fmt.Sprint(x))
 		}
 	}
-	pkgs := []concPkg{{"c19a", "c19_user.go.txt", []string{"c19_main.go.txt", "c19_cfg_a.go.txt"}}, {"c19b", "c19b_user.go.txt", []string{"c19_main.go.txt", "c19_cfg_b.go.txt"}}}
+	pkgs := []concPkg{{"c19a", "c19_user.go.txt", []string{"c19_main.go.txt", "c19_cfg_a.go.txt"}, ""}, {"c19b", "c19b_user.go.txt", []string{"c19_main.go.txt", "c19_cfg_b.go.txt"}, ""}}
 	if prop == "C20" {
-		pkgs = []concPkg{{"c20", "c20_user.go.txt", []string{"c20_main.go.txt"}}}
+		pkgs = []concPkg{{"c20", "c20_user.go.txt", []string{"c20_main.go.txt"}, ""}}
 	}
 	reproduced := false
+	old := strings.HasSuffix(cfg, " [go1.21]")
+	cfg = strings.TrimSuffix(cfg, " [go1.21]")
 	for _, pk := range pkgs {
+		if old {
+			pk.lang = "go1.21"
+		}
 		if prop == "C19" && (strings.HasPrefix(cfg, "JoinBR") != (pk.name == "c19b")) {
 			continue
 		}
 		dir := filepath.Join(scratchDir, "e3a", pk.name)
-		_, _, inconclusive, err := buildConcScenario(pk.name, harnessFile(pk.user), "")
+		_, _, inconclusive, err := buildConcScenario(pk.name, harnessFile(pk.user), "", pk.lang)
 		if inconclusive != "" || err != nil {
 			fmt.Println("cannot build the scenario:", inconclusive, err)
 			cleanup()
